@@ -2,6 +2,8 @@ package path
 
 import (
 	"errors"
+	"fmt"
+	"strings"
 )
 
 func build(source string, parsed any) PropertyPath {
@@ -52,9 +54,14 @@ func ParsePath(path string) (PropertyPath, error) {
 			},
 		}, nil
 	}
-	parsed, err := Parse("", []byte(path))
+	p := newParser("", []byte(path))
+	parsed, err := p.parse(g)
 	if err != nil {
-		panic(err)
+		return nil, err
+	}
+	// the grammar has no end-of-input assertion: whatever follows the longest valid prefix must be rejected here
+	if rest := strings.TrimSpace(path[p.pt.offset:]); rest != "" {
+		return nil, fmt.Errorf("invalid property path '%s': unexpected '%s' after '%s'", path, rest, path[:p.pt.offset])
 	}
 
 	propertyPath := build(path, parsed)
